@@ -43,6 +43,26 @@ def run_stream(items):
     return per, dict(parser.pids_names), None
 
 
+def run_stream_via_file(items, kind, rng):
+    """The same merged stream written into a dump (empty thread map, records split over chunks for version 3) and read
+    by the public front end."""
+    import io
+    from vlib import wire, gen
+    from pykdebugparser.pykdebugparser import PyKdebugParser
+    events = H.materialize(items)
+    records = gen.events_to_records(events)
+    data = wire.v2_file([], 8, records) if kind == 'v2' else \
+        wire.V3Spec(entries=[], chunks=gen.split_chunks(rng, records, rng.choice((1, 2, 3, 5)))).build()
+    p = PyKdebugParser()
+    per = {}
+    try:
+        for t in p.traces(io.BytesIO(data)):
+            per.setdefault(t.ktraces[0].tid, []).append(trace_key(t))
+    except Exception as x:
+        return per, dict(p.pids_names), x
+    return per, dict(p.pids_names), None
+
+
 def gen_programs(rng, pairs_everywhere):
     nthreads = rng.choice((2, 2, 3, 3, 4))
     shared_children = rng.random() < 0.5
@@ -159,8 +179,14 @@ def check_set(res, ctx, rng, programs, tids, n_random=None):
             if code in ('TRACE_DATA_NEWTHREAD', 'TRACE_DATA_EXEC') and items[j + 1][0] != items[j][0]:
                 res.count('schedules_splitting_a_pair')
                 break
-        per, names, exc = run_stream(items)
-        case = {'programs': programs_case(programs, tids), 'order': [list(o) for o in order]}
+        via = None
+        if (n_sched % 9 == 0 and len(items) < 400) or n_sched == 2:
+            via = 'v3' if n_sched % 2 == 0 else 'v2'
+            per, names, exc = run_stream_via_file(items, via, rng)
+            res.count('schedules_through_a_dump')
+        else:
+            per, names, exc = run_stream(items)
+        case = {'programs': programs_case(programs, tids), 'order': [list(o) for o in order], 'via': via}
         if exc is not None:
             res.violation(f'c05-raises-{core.exc_name(exc)}', f'schedule raised {exc!r} although every program alone '
                           f'is processed', case)
@@ -188,6 +214,8 @@ def programs_case(programs, tids):
 
 def run(ctx):
     res = core.Result()
+    import random
+    H.set_clock(random.Random(ctx.seed * 7919 + ctx.shard))      # coarse time base: records may share a tick
     rng = ctx.rng
     for i in range(ctx.pick(24, 2000)):
         programs, tids = gen_programs(rng, pairs_everywhere=(i % 2 == 0))
@@ -240,6 +268,7 @@ def run(ctx):
     res.require('program_sets_exhaustively_scheduled', 1)
     res.require('many_thread_sets', 1)
     res.require('wide_thread_sets', 1)
+    res.require('schedules_through_a_dump', 20)
     return res
 
 
